@@ -19,7 +19,7 @@ HEADER = ("From Coq Require Import ZArith List Bool Arith. Import ListNotations.
 
 # op name -> (argument kinds, number of implementation variants)
 OPS = {
-    "NewArr": ("V", 1), "NdView": ("n", 4), "NdCopy": ("n", 1), "NdWrite": ("niv", 1), "NdIAdd": ("nn", 2),
+    "NewArr": ("V", 2), "NewArrRO": ("V", 2), "NdView": ("n", 4), "NdCopy": ("n", 1), "NdWrite": ("niv", 1), "NdIAdd": ("nn", 2),
     "MkAny": ("n", 1), "AnyLock": ("a", 1), "AnyVal": ("a", 1), "AnyAsNumpy": ("a", 1), "AnyView": ("a", 4),
     "AnySame": ("a", 3), "AnyCopy": ("a", 1), "AnySetItem": ("aiv", 1), "AnyIAdd": ("aa", 1),
     "AnyUfuncOut": ("aa", 1),
@@ -28,6 +28,18 @@ OPS = {
     "FieldAsNumpyRw": ("f", 1), "FieldAdd": ("ff", 2), "MkDiag": ("f", 2),
 }
 EXN = {"ValueError": "EValue", "TypeError": "EType", "IndexError": "EIndex"}
+
+
+class TaggedArray(np.ndarray):
+    """Minimal user-defined ndarray subclass (an array carrying a unit)."""
+
+    def __new__(cls, data, dtype=np.int64, tag="Jy"):
+        obj = np.array(data, dtype=dtype).view(cls)
+        obj.tag = tag
+        return obj
+
+    def __array_finalize__(self, obj):
+        self.tag = getattr(obj, "tag", None)
 
 
 class Runner:
@@ -97,8 +109,10 @@ class Runner:
         ift, L = self.ift, self.L
         k, a, var = o["op"], o["args"], o.get("var", 0)
         nds, anys, flds = self.nds, self.anys, self.flds
-        if k == "NewArr":
-            x = np.array([int(v) for v in a[0]], dtype=np.int64)
+        if k in ("NewArr", "NewArrRO"):
+            x = np.array([int(v) for v in a[0]], dtype=np.int64) if var == 0 else TaggedArray([int(v) for v in a[0]])
+            if k == "NewArrRO":
+                x.flags.writeable = False
             return ("nd", self._reg(nds, x))
         if k == "NdView":
             x = nds[a[0]]
@@ -300,6 +314,10 @@ def systematic():
         "makeField": [mk("NewArr", [1, 2]), mk("MkField", 0, var=2)],
         "MkFieldAny": [mk("NewArr", [1, 2]), mk("MkAny", 0), mk("MkFieldAny", 0, var=0)],
         "from_raw_any": [mk("NewArr", [1, 2]), mk("MkAny", 0), mk("MkFieldAny", 0, var=1)],
+        "MkField_subclass": [mk("NewArr", [1, 2], var=1), mk("MkField", 0, var=1)],
+        "MkField_ctor_subclass": [mk("NewArr", [1, 2], var=1), mk("MkField", 0, var=0)],
+        "MkFieldAny_subclass": [mk("NewArr", [1, 2], var=1), mk("MkAny", 0), mk("MkFieldAny", 0, var=0)],
+        "MkField_readonly": [mk("NewArrRO", [1, 2]), mk("MkField", 0, var=2)],
         "FieldFull": [mk("FieldFull", 3)],
         "FieldAdd": [mk("FieldFull", 3), mk("FieldAdd", 0, 0), mk("FieldCast", 1)],       # attack field 1/2
         "view_first": [mk("NewArr", [1, 2]), mk("NdView", 0), mk("MkField", 0, var=1)],   # inadmissible
@@ -347,7 +365,7 @@ def random_history(rng, L, n):
     r = Runner(L)
     ops = []
     names = list(OPS)
-    w = {"NewArr": 3, "MkField": 4, "MkFieldAny": 3, "NdWrite": 4, "AnySetItem": 3, "NdIAdd": 2, "AnyIAdd": 2,
+    w = {"NewArr": 3, "NewArrRO": 1, "MkField": 4, "MkFieldAny": 3, "NdWrite": 4, "AnySetItem": 3, "NdIAdd": 2, "AnyIAdd": 2,
          "AnyUfuncOut": 2, "NdView": 2, "AnyView": 2, "AnySame": 2, "FieldRaw": 2, "FieldVal": 2, "MkAny": 2}
     p = np.array([w.get(k, 1) for k in names], dtype=float)
     p /= p.sum()
@@ -524,6 +542,155 @@ def run_probe(name, build):
     return n, None
 
 
+# ---- source-array kinds x constructors x writes through the SOURCE object (direct oracle) ----------
+
+def source_kinds(tmpdir):
+    """name -> (factory returning a fresh source array, domain kind '2d' | '0d')"""
+    import os
+
+    def base():
+        return np.arange(12.).reshape(3, 4) + 1.
+
+    def memmap():
+        mm = np.memmap(os.path.join(tmpdir, "c07_src.bin"), dtype=np.float64, mode="w+", shape=(3, 4))
+        mm[...] = base()
+        return mm
+
+    def noncontig():
+        big = np.arange(24.).reshape(3, 8) + 1.
+        return big[:, ::2]
+
+    def readonly():
+        x = base()
+        x.flags.writeable = False
+        return x
+
+    return {
+        "plain float64": (base, "2d"),
+        "plain int64": (lambda: (np.arange(12).reshape(3, 4) + 1), "2d"),
+        "plain complex128": (lambda: base() * (1 + 2j), "2d"),
+        "Fortran order": (lambda: np.asfortranarray(base()), "2d"),
+        "non-contiguous view": (noncontig, "2d"),
+        "transposed view": (lambda: (np.arange(12.).reshape(4, 3) + 1.).T, "2d"),
+        "read-only": (readonly, "2d"),
+        "user subclass": (lambda: TaggedArray(base(), dtype=float), "2d"),
+        "np.memmap": (memmap, "2d"),
+        "np.ma.MaskedArray": (lambda: np.ma.masked_array(base()), "2d"),
+        "np.matrix": (lambda: np.matrix(base()), "2d"),
+        "np.recarray view": (lambda: base().view(np.recarray), "2d"),
+        "0-d float64": (lambda: np.array(3.0), "0d"),
+        "0-d int64": (lambda: np.array(3), "0d"),
+        "0-d from reduction": (lambda: np.asarray(np.arange(4.).sum(keepdims=False)).reshape(()), "0d"),
+        "0-d user subclass": (lambda: TaggedArray(3.0, dtype=float), "0d"),
+    }
+
+
+def source_writes(src):
+    """every way to write through the source object itself (exceptions are the expected outcome)"""
+    first = () if src.ndim == 0 else (0,) * src.ndim
+
+    def isub():
+        nonlocal src
+        s = src
+        s -= 5
+
+    def iadd():
+        s = src
+        s += 1000
+
+    return [
+        ("item assignment", lambda: src.__setitem__(first, 99)),
+        ("slice assignment", lambda: src.__setitem__(Ellipsis, -1)),
+        ("fill", lambda: src.fill(43)),
+        ("np.copyto", lambda: np.copyto(src, 44)),
+        ("+=", iadd),
+        ("-=", isub),
+        ("ufunc out=", lambda: np.multiply(src, 2, out=src)),
+        # not attacked: np.add.at -- ufunc.at of NumPy 2.5 writes through read-only arrays (a NumPy defect,
+        # measured and recorded in the evidence by numpy_ufunc_at_ignores_readonly(); exclusion 4)
+        ("put", lambda: src.put(0, 55)),
+        ("np.put", lambda: np.put(src, [0], 56)),
+        ("flat", lambda: src.flat.__setitem__(0, 57)),
+        ("np.place", lambda: np.place(src, np.ones(src.shape, dtype=bool), 58)),
+        ("np.putmask", lambda: np.putmask(src, np.ones(src.shape, dtype=bool), 59)),
+        ("sort", lambda: src.sort()),
+        ("byteswap inplace", lambda: src.byteswap(True)),
+        ("view assignment", lambda: src.view().__setitem__(Ellipsis, 60)),
+        ("reshape assignment", lambda: src.reshape(-1).__setitem__(0, 61)),
+        ("np.asarray assignment", lambda: np.asarray(src).__setitem__(Ellipsis, 62)),
+    ]
+
+
+def source_grid(tmpdir):
+    """yields (case name, number of writes attempted, failure dict or None).  The property on the
+    implementation: after a field has been built from `src`, no write THROUGH `src` changes the
+    field or the operators built from it.  (Other aliases the caller may hold are excluded.)"""
+    import nifty.cl as ift
+    d2 = ift.DomainTuple.make(ift.RGSpace((3, 4)))
+    d0 = ift.DomainTuple.scalar_domain()
+    ctors = {
+        "Field()": lambda d, a: ift.Field(d, a),
+        "Field.from_raw": lambda d, a: ift.Field.from_raw(d, a),
+        "makeField": lambda d, a: ift.makeField(d, a),
+        "MultiField.from_raw": lambda d, a: ift.MultiField.from_raw(ift.MultiDomain.make({"k": d}), {"k": a})["k"],
+        "makeField(dict)": lambda d, a: ift.makeField(ift.MultiDomain.make({"k": d}), {"k": a})["k"],
+        "Field(AnyArray)": lambda d, a: ift.Field(d, ift.AnyArray(a)),
+        "Field.from_raw(AnyArray)": lambda d, a: ift.Field.from_raw(d, ift.AnyArray(a)),
+    }
+    for kname, (factory, dk) in source_kinds(tmpdir).items():
+        dom = d2 if dk == "2d" else d0
+        for cname, ctor in ctors.items():
+            src = factory()
+            try:
+                f = ctor(dom, src)
+            except (ValueError, TypeError):
+                continue        # a constructor may refuse a source kind; then there is nothing to protect
+            one = ift.full(dom, 1.)
+
+            def lst(x):
+                x = np.array(np.asarray(x), dtype=complex)
+                return [x.real.tolist(), x.imag.tolist()]
+
+            def observe():
+                return json.dumps([lst(f.raw), lst(ift.Adder(f)(one).raw), lst(ift.makeOp(f)(one).raw)])
+            adder, diag = ift.Adder(f), ift.makeOp(f)
+
+            def observe_ops():
+                return json.dumps([lst(adder(one).raw), lst(diag(one).raw)])
+            birth, birth_ops = observe(), observe_ops()
+            n = 0
+            fail = None
+            for wname, w in source_writes(src):
+                n += 1
+                try:
+                    w()
+                except Exception:
+                    pass
+                if observe() != birth or observe_ops() != birth_ops:
+                    fail = {"source": kname, "ctor": cname, "write": wname}
+                    break
+            yield "%s from %s" % (cname, kname), n, fail
+
+
+def numpy_ufunc_at_ignores_readonly():
+    """NumPy fact N4 has a hole in some NumPy versions: ufunc.at does not check flags.writeable."""
+    a = np.arange(3.)
+    a.flags.writeable = False
+    try:
+        np.add.at(a, 0, 7)
+    except ValueError:
+        return False
+    return bool(a[0] == 7.)
+
+
+def run_grid(ctx_dir, only=None):
+    out = []
+    for name, n, fail in source_grid(ctx_dir):
+        if only is None or name == only:
+            out.append((name, n, fail))
+    return out
+
+
 class C07(C.Check):
     prop = "C07"
     coq_dir = "C07"
@@ -536,6 +703,7 @@ class C07(C.Check):
     assumptions = [
         "excluded: the user sets ndarray.flags.writeable = True by hand",
         "excluded: handles reached through ndarray.base",
+        "excluded: NumPy write routes that ignore flags.writeable (ufunc.at in NumPy 2.5.3 writes through read-only arrays: np.add.at(f.raw, 0, 1) changes a field; a NumPy defect no wrapper can prevent; measured every run, see coverage.numpy_ufunc_at_ignores_readonly)",
         "caller-side precondition (adm_run): when a field is built from a caller-supplied array, the caller holds no other writeable ndarray object on the same memory (e.g. a view made earlier, or the base of which the source is a view) -- NumPy gives a wrapper no way to revoke those",
     ]
 
@@ -574,7 +742,7 @@ class C07(C.Check):
                 opcount[o["op"]] = opcount.get(o["op"], 0) + 1
         res.coverage.update({
             "evaluations": len(cases), "distinct_nontrivial": len(sigs),
-            "rule": "histories of public operations (26 kinds, several API variants each): %d from corpus, constructor x handle x write-route grid (L=2), random histories of length 3..%d over L in 1..3; non-trivial = creates a field and contains at least one write that raised; distinct by (L, op list)" % (ncorp, 12 if ctx.quick else 30),
+            "rule": "histories of public operations (27 kinds, several API variants each): %d from corpus, constructor x handle x write-route grid (L=2), random histories of length 3..%d over L in 1..3; non-trivial = creates a field and contains at least one write that raised; distinct by (L, op list)" % (ncorp, 12 if ctx.quick else 30),
             "samples": [{"L": rr["L"], "ops": [[o["op"]] + o["args"] for o in rr["ops"]], "results": [list(s["res"]) for s in rr["steps"]]}
                         for rr in self.runs[ncorp + 3:ncorp + 5]],
             "input_distribution": {"ops": opcount, "steps": sum(len(rr["ops"]) for rr in self.runs),
@@ -606,6 +774,17 @@ class C07(C.Check):
                                 "probe '%s': value changed after write route %d through handle %d (%s)" % (
                                     name, f["route"], f["handle"], f["handle_type"]),
                                 {"kind": "probe", "name": name})
+        ngrid = 0
+        for name, k, f in run_grid(ctx.run_dir()):
+            n += k
+            ngrid += 1
+            if f and nfail < 8:
+                nfail += 1
+                res.add_failing({"what": "field value changed", "ctor": f["ctor"], "route": "source/%s/%s" % (f["source"], f["write"])},
+                                "%s built from a %s source changed after '%s' through the source array" % (f["ctor"], f["source"], f["write"]),
+                                {"kind": "grid", "name": name})
+        res.coverage["source_grid_cases"] = ngrid
+        res.coverage["numpy_ufunc_at_ignores_readonly"] = numpy_ufunc_at_ignores_readonly()
         if budget > 1 and not res.failing:
             rng = ctx.rng(99)
             for i in range(1500):
@@ -624,6 +803,11 @@ class C07(C.Check):
         i = rp["input"]
         if i["kind"] == "history":
             return run_history(i["L"], i["ops"])[1] is not None
+        if i["kind"] == "grid":
+            r = run_grid(ctx.run_dir(), only=i["name"])
+            if not r:
+                raise C.MachineryError("unknown grid case " + i["name"])
+            return r[0][2] is not None
         for name, build in probe_list():
             if name == i["name"]:
                 return run_probe(name, build)[1] is not None
